@@ -135,13 +135,13 @@ def register_core(R):
     R.axiom("stages_snoc", {"h": "hist", "e": "event"},
             "stages(snoc(h, e)) == (snoc(stages(h), e) if (ev_name(e) == '_run_setup' or ev_name(e) == '_run_test_method' or "
             "ev_name(e) == '_run_teardown') else stages(h))")
-    R.contract(RT + "_raise_force_fail_error", assumed=False, props=["C03"], pure=True, exsures=["subclass_of(cls_of(exc), AssertionError)"], ensures=["False"])
+    R.contract(RT + "_raise_force_fail_error", assumed=False, props=["C03", "C07"], pure=True, exsures=["typeof_is(exc, AssertionError)", "subclass_of(cls_of(exc), AssertionError)"], ensures=["False"])
     HR = "hist(self.result)"
     HR0 = "old(hist(self.result))"
     SKIPPED = "(truthy(ite(fieldof(self.case, '__unittest_skip__') is absent(), False, fieldof(self.case, '__unittest_skip__'))) or " \
               "truthy(ite(fieldof(TM, '__unittest_skip__') is absent(), False, fieldof(TM, '__unittest_skip__'))))"
     R.function("test_method_of", ["val"], "val")
-    R.contract(R_ + "_run_core", props=["C01", "C02", "C03"], context=dict(CTX, H0="hist(self.case)"),
+    R.contract(R_ + "_run_core", props=["C01", "C02", "C03", "C07"], context=dict(CTX, H0="hist(self.case)"),
                requires=DISTINCT + ["self.case is not self.result"], frame_hist=True,
                modifies=["list(self.case._cleanups)", "list(self._exceptions)", "$hist", "self.case.force_failure"],
                ensures=[
@@ -153,6 +153,11 @@ def register_core(R):
                    # success is reported only when force_failure is unset at the end
                    "implies(len(%s) == len(%s) and ev_name(hlast(%s)) == 'addSuccess', "
                    " not truthy(ite(fieldof(self.case, 'force_failure') is absent(), None, fieldof(self.case, 'force_failure'))))" % (X, X0, HR),
+                   # a mismatching expectThat (force_failure set when the stages are over) always leaves the forced AssertionError as the LAST
+                   # exception recorded -- also when setUp itself raised (a skip, say) -- so _pick_exception (last non-benign wins) selects a failure
+                   "implies(stages(hist(self.case)) != stages(H0) and "
+                   " truthy(ite(fieldof(self.case, 'force_failure') is absent(), None, fieldof(self.case, 'force_failure'))), len(%s) > len(%s) and "
+                   " subclass_of(cls_of(at(%s, len(%s) - 1)), AssertionError))" % (X, X0, X, X),
                    # stage order: setUp first; test method and tearDown iff setUp returned; then the cleanups: none is left
                    "stages(hist(self.case)) == stages(H0) or len(listof(self.case._cleanups)) == 0",
                    "stages(hist(self.case)) == stages(H0) or "
